@@ -191,6 +191,8 @@ type exec struct {
 	table    []string          // payload digests in order of first appearance in op lines
 	bytesOf  map[string][]byte // digest -> real bytes
 	sigCache map[string]string // signature bytes -> payload index / "invalid"
+	pubs     []crypto.PubKey   // every key the object ever had in this case (UpdatePrikey)
+	others   [][]byte          // sign-bytes of heartbeats and SignData calls
 	started  bool
 }
 
@@ -251,11 +253,16 @@ func (e *exec) sigIdx(sig crypto.Signature, hint []byte) string {
 		return v
 	}
 	ans := "invalid"
-	if hint != nil && e.pub.VerifyBytes(hint, sig) {
-		ans = e.idx(hint)
-	} else {
+	for _, pk := range e.pubs {
+		if ans != "invalid" {
+			break
+		}
+		if hint != nil && pk.VerifyBytes(hint, sig) {
+			ans = e.idx(hint)
+			break
+		}
 		for i, d := range e.table {
-			if e.pub.VerifyBytes(e.bytesOf[d], sig) {
+			if pk.VerifyBytes(e.bytesOf[d], sig) {
 				ans = strconv.Itoa(i)
 				break
 			}
@@ -399,6 +406,8 @@ func (e *exec) Exec(op string) string {
 		os.Remove(e.path)
 		e.pv = types.LoadOrGenFilePV(e.path)
 		e.pub = e.pv.GetPubKey()
+		e.pubs = []crypto.PubKey{e.pub}
+		e.others = nil
 		return "mem=" + e.memStr() + " disk=" + e.diskStr()
 	case "durability":
 		// observed on the real system calls of a fresh signing call (calibration run under strace)
@@ -410,6 +419,9 @@ func (e *exec) Exec(op string) string {
 	}
 	if !e.started {
 		return "bad-op no-init"
+	}
+	if ans, ok := e.execExtra(toks); ok {
+		return ans
 	}
 	switch toks[0] {
 	case "show":
@@ -428,7 +440,17 @@ func (e *exec) Exec(op string) string {
 		lh, _ := strconv.ParseUint(hs, 10, 64)
 		e.pv.LastHeight, e.pv.LastRound, e.pv.LastStep = lh, atoi(toks, "lr"), int8(atoi(toks, "ls"))
 		e.pv.LastSignBytes, e.pv.LastSignature = nil, nil
-		if _, ok := hx.Arg(toks, "sb"); ok {
+		if raw, ok := hx.Arg(toks, "rawsb"); ok {
+			// a record whose sign-bytes are NOT the canonical JSON of a vote/proposal (damaged or hand-edited file)
+			sb := hx.UnHex(raw)
+			if d, _ := hx.Arg(toks, "sb"); d != digest(sb) {
+				return "bad-op sb-mismatch"
+			}
+			e.learn(sb)
+			e.pv.LastSignBytes = sb
+			sig, _ := e.pv.GetPrikey().Sign(sb)
+			e.pv.LastSignature = sig
+		} else if _, ok := hx.Arg(toks, "sb"); ok {
 			// the record's payload is the sign-bytes of the request described by the remaining fields
 			q := parseReq(toks)
 			if atoi(toks, "ls") == 1 {
@@ -564,7 +586,44 @@ func (P) Monitor(c *hx.CaseRun) []hx.Failure {
 		if toks[0] == "durability" && ans != "atomic=true synced=true" {
 			fail("persist_before_release", "key-file-write-not-atomic-or-not-synced", "system calls of a signing call: "+ans)
 		}
-		if toks[0] == "setrec" || toks[0] == "init" {
+		switch toks[0] {
+		case "signheartbeat", "signdata", "domains":
+			cl, _ := hx.Arg(atoks, "clash")
+			scl, _ := hx.Arg(atoks, "sigclash")
+			_, raw := hx.Arg(toks, "raw")
+			if !raw && strings.HasPrefix(ans, "ok ") || toks[0] == "domains" {
+				if cl != "none" || (scl != "none" && scl != "") {
+					fail("signing_domains_disjoint", "signing-domains-collide", fmt.Sprintf("op %d %q: sign-bytes of another signing domain equal / its signature verifies for vote or proposal payload (%s)", i, clipStr(op), ans))
+				}
+				if v, ok := hx.Arg(atoks, "valid"); ok && v != "true" {
+					fail("released_signature_valid", "released-invalid-signature", fmt.Sprintf("op %d %q: %s", i, clipStr(op), ans))
+				}
+				if before != "" && prevDisk != "" && prevDisk != before {
+					fail("signing_domains_disjoint", "unrecorded-call-changed-record", fmt.Sprintf("op %d %q changed the key file from %s to %s", i, clipStr(op), before, prevDisk))
+				}
+			}
+			if raw && c.Tags["oracle-strict"] && strings.Contains(ans, "first=brace") && strings.Contains(ans, "valid=true") {
+				fail("one_payload_per_hrs", "signdata-signing-oracle", fmt.Sprintf("op %d: SignData signed bytes that are the sign-bytes of a vote/proposal (%s)", i, ans))
+			}
+		case "loadbad":
+			for _, f := range atoks {
+				kv := strings.SplitN(f, "=", 2)
+				if len(kv) != 2 {
+					continue
+				}
+				switch kv[0] {
+				case "empty", "truncated", "cuttail", "garbage", "nokey", "badsig", "dir":
+					if kv[1] != "refused" {
+						fail("key_file_loadable", "started-with-damaged-key-file", fmt.Sprintf("op %d: LoadOrGenFilePV on a %s key file answered %s (a validator without its last-signed record re-signs everything)", i, kv[0], kv[1]))
+					}
+				case "good":
+					if !strings.HasPrefix(kv[1], "loaded:") || !strings.HasSuffix(kv[1], ":same") {
+						fail("key_file_loadable", "restart-impossible", fmt.Sprintf("op %d: the intact key file did not load: %s", i, kv[1]))
+					}
+				}
+			}
+		}
+		if toks[0] == "setrec" || toks[0] == "init" || toks[0] == "reset" {
 			rels = nil // the harness rewrote the record by hand (like FilePV.Reset): history starts again
 		}
 		if toks[0] != "signvote" && toks[0] != "signprop" {
@@ -602,6 +661,10 @@ func (P) Monitor(c *hx.CaseRun) []hx.Failure {
 			rel := release{at: at, sig: sig, ts: ts, reqSB: sbd, reqTS: q.ts, nosave: q.nosave, op: i}
 			if sig == "invalid" || sig == "nil" || sig == "unknown" || sig == "undecodable" {
 				fail("released_signature_valid", "released-invalid-signature", fmt.Sprintf("op %d %q: the signature handed out verifies against no payload of this case (%s)", i, clipStr(op), sig))
+			}
+			if post, ok := hx.Arg(atoks, "post"); ok && post != sig && sig != "invalid" && sig != "nil" {
+				fail("released_signature_signs_returned_vote", "released-signature-not-over-returned-vote",
+					fmt.Sprintf("op %d %q: the vote handed back has sign-bytes #%s but carries a signature over payload #%s", i, clipStr(op), post, sig))
 			}
 			for _, p := range rels {
 				bypass := p.nosave || rel.nosave
